@@ -148,6 +148,7 @@ def verify_feature_set(repo, verif, features, use_cache=True, vacuity=True, extr
         function_breakdown=[{"function": f["function"], "ms": f.get("time"), "rlimit": f.get("rlimit"),
                              "success": f.get("success")} for f in fb],
         labels={str(k): v for k, v in labels.items()},
+        label_functions={v: ([nm for a, b, nm in funcs if a <= k <= b] or ["(shim/glue)"])[0] for k, v in labels.items()},
         functions=[nm for _, _, nm in funcs],
         extraction=[{"function": r["function"], "file": r["file"], "rules": r["rules_applied"],
                      "sha": r["source_sha256"]} for r in g.report],
